@@ -10,6 +10,7 @@ use vkit::ledger::Ledger;
 static GLOBAL: Ledger = Ledger;
 
 mod arcad;
+mod cviewad;
 mod cstrad;
 mod feedad;
 mod intresad;
@@ -28,6 +29,7 @@ fn main() {
     match args[1].as_str() {
         "vec" => vecad::main(&args[2..]),
         "arc" => arcad::main(&args[2..]),
+        "cview" => cviewad::main(&args[2..]),
         "obj" => objad::main(&args[2..]),
         "views" => viewsad::main(&args[2..]),
         "intres" => intresad::main(&args[2..]),
